@@ -1299,6 +1299,30 @@ impl PeerConnection {
     pub fn set_local_description(&self, desc: SessionDescription) -> RtcResult<()> {
         self.inner.validate_sdp_type(&desc.sdp_type)?;
 
+        // Refuse a call the offer/answer state machine forbids before touching any
+        // transceiver: a call that returns an error must leave everything as it was.
+        {
+            let state = *self.inner.signaling_state.borrow();
+            match desc.sdp_type {
+                SdpType::Offer if state != SignalingState::Stable => {
+                    return Err(RtcError::InvalidState(
+                        "set_local_description(offer) requires stable signaling state".into(),
+                    ));
+                }
+                SdpType::Answer if state != SignalingState::HaveRemoteOffer => {
+                    return Err(RtcError::InvalidState(
+                        "set_local_description(answer) requires remote offer".into(),
+                    ));
+                }
+                SdpType::Pranswer if state != SignalingState::HaveRemoteOffer => {
+                    return Err(RtcError::InvalidState(
+                        "set_local_description(pranswer) requires remote offer".into(),
+                    ));
+                }
+                _ => {}
+            }
+        }
+
         // For Offerer: extract parameters from local offer (our intended changes)
         // This allows Offerer to immediately update transceivers with new parameters
         // that will be confirmed when answer is received
